@@ -51,6 +51,9 @@ pub struct LRunSpec {
     pub faults: Vec<Fault>,
     /// fault-free rounds appended after the script
     pub rounds_after: usize,
+    /// samples written before the reader is matched; the reader does not request history, so it is owed a GAP for them
+    #[serde(default)]
+    pub pre: usize,
 }
 
 struct Link {
@@ -66,6 +69,7 @@ struct Link {
     handed: Vec<i64>,
     bytes_bad: Vec<i64>,
     frag: usize,
+    pre: i64,
     round_traffic: Vec<String>,
     round_faults: u32,
     captured: Vec<Vec<u8>>,
@@ -236,7 +240,9 @@ impl Link {
         let (first, last) = self.w.first_last();
         let _ = first;
         let whist = self.w.history_sns();
-        let missing: Vec<i64> = whist.iter().copied().filter(|s| !self.handed.contains(s)).collect();
+        // what the reader is owed and has not been handed (samples from before the match are not owed)
+        let pre = self.pre;
+        let missing: Vec<i64> = whist.iter().copied().filter(|s| *s > pre && !self.handed.contains(s)).collect();
         let partial: Vec<i64> = vec![];
         let _ = partial;
         self.log.push(json!({
@@ -256,12 +262,26 @@ pub fn run_one(run_no: usize, spec: &LRunSpec, out: &mut Vec<Value>) -> Vec<Vec<
     reader_guid[12..16].copy_from_slice(&r.slots[0].entity_id);
     let mut l = Link {
         w, r, reader_guid, wr: VecDeque::new(), rw: VecDeque::new(), faults: spec.faults.clone(), seen: HashMap::new(),
-        written: HashMap::new(), nfrags: HashMap::new(), handed: vec![], bytes_bad: vec![], frag: spec.frag,
+        written: HashMap::new(), nfrags: HashMap::new(), handed: vec![], bytes_bad: vec![], frag: spec.frag, pre: 0,
         round_traffic: vec![], round_faults: 0, captured: vec![], log: vec![],
     };
+    l.log.push(json!({"ev":"Reset","run":run_no,"hist":spec.hist,"frag":spec.frag,"pre":spec.pre}));
+    // the writer's life before the match: nobody to send to
+    for _ in 0..spec.pre {
+        let sn = l.written.len() as i64 + 1;
+        let value = value_of(sn, false, l.frag);
+        let mut full = vec![0, 1, 0, 0];
+        full.extend_from_slice(&value);
+        l.nfrags.insert(sn, 0);
+        l.written.insert(sn, full);
+        let (_sn, sent) = l.w.write(value, None, Some(5000 + sn as u32));
+        l.log.push(json!({"ev":"Write","sn":sn,"big":false,"nfrags":0,"pre":true}));
+        l.enqueue("wr", sent);
+        l.deliver_all();
+    }
+    l.pre = spec.pre as i64;
     l.w.match_reader(reader_guid, true, 21_001);
     l.r.match_writer(0, WRITER_GUID, true, 21_900);
-    l.log.push(json!({"ev":"Reset","run":run_no,"hist":spec.hist,"frag":spec.frag}));
     for a in &spec.acts {
         match a {
             LAct::Write { big } => {
@@ -331,7 +351,21 @@ pub fn random_run(rng: &mut StdRng, n_events: usize) -> LRunSpec {
             acts.push(LAct::Clean);
         }
     }
-    LRunSpec { hist, frag, acts, faults, rounds_after: 7 }
+    // a third of the runs: a late joiner that is not owed the first samples
+    let pre = if rng.gen_bool(0.33) { rng.gen_range(1..5) } else { 0 };
+    if pre > 0 {
+        // sequence numbers in the fault addresses refer to the samples written after the match
+        for f in faults.iter_mut() {
+            if f.at.k != "ACKNACK" {
+                f.at.sn += pre as i64;
+            }
+        }
+        // and the GAP the joiner is owed may be lost or duplicated as well
+        if rng.gen_bool(0.5) {
+            faults.push(Fault { at: Addr { dir: "wr".into(), k: "GAP".into(), sn: 1, f: 0, occ: rng.gen_range(1..3) }, what: if rng.gen_bool(0.7) { "drop".into() } else { "dup".into() } });
+        }
+    }
+    LRunSpec { hist, frag, acts, faults, rounds_after: 7, pre }
 }
 
 pub fn random_specs(seed: u64, runs: usize, events: usize) -> Vec<LRunSpec> {
